@@ -104,6 +104,15 @@ class Ctx:
     def note(self, text: str) -> None:
         self.notes.append(text)
 
+    def guard(self, check, *args, **kw) -> None:
+        """Run one clause; an analysis error in it is deferred so that the other clauses still report."""
+        from . import AnalysisError
+
+        try:
+            check(*args, **kw)
+        except AnalysisError as exc:
+            self.defer(str(exc))
+
     def defer(self, text: str) -> None:
         """A clause that could not be analysed: fails the run as ANALYSIS-ERROR once the other rules have reported."""
         self.deferred.append(text)
